@@ -139,7 +139,21 @@ def run(ck):
             # parameter list (the later declaration is the class of the workspace)
             nm = rng.choice(["A", "B", "Foo", "Bar", "C1", "D"]) + rng.choice(["", "", str(i)])
             k = rng.randrange(0, 4)
-            params = ", ".join(rng.choice(["int p%d", "string p%d = \"s\"", "list<int> p%d", "bits<4> p%d = 0"]) % j for j in range(k))
+            # parameter declarations with every kind of default value: literals, earlier parameters, bit ranges of them, operators,
+            # records (also ones a defm creates), the parameter itself, an unknown name - each is one template parameter
+            shapes = ["int p%d", "string p%d = \"s\"", "list<int> p%d", "bits<4> p%d = 0", "int p%d = !add(1, 2)", "list<int> p%d = [1, 2]",
+                      "int p%d = ?", "string p%d = \"a\" # \"b\"", "Base0 p%d = d0", "Base0 p%d = dm_x", "int p%d = nosuchname", "bit p%d = !eq(1, 2)",
+                      "dag p%d = (d0 1)", "code p%d = [{ c }]", "bits<4> p%d = {1, 0, 1, 0}", "Base0 p%d = !cast<Base0>(\"d0\")"]
+            plist = []
+            for j in range(k):
+                sh = rng.choice(shapes) % j
+                r = rng.random()
+                if r < 0.12:
+                    sh = "int p%d = p%d" % (j, j)
+                elif r < 0.3 and j > 0:
+                    sh = rng.choice(["bits<3> p%d = p%d{2...0}", "int p%d = p%d", "bit p%d = p%d{0}", "list<int> p%d = [p%d]", "int p%d = !add(p%d, 1)"]) % (j, j - 1)
+                plist.append(sh)
+            params = ", ".join(plist)
             decl = "class %s%s%s" % (nm, ("<" + params + ">") if k else "", rng.choice([";", " { int f = 1; }", " : Base0;"]))
             to_inc.append((rng.random() < 0.3, nm, k, decl))
         # the include is the first statement of main.td, so the declarations of inc.td come first
@@ -147,7 +161,7 @@ def run(ck):
             classes[nm] = k
             (inc if is_inc else main).append(decl)
         kind = rng.choice(["class", "class2", "def", "defm", "multiclass", "defbody"])
-        head = ('include "inc.td"\n' if inc else "") + "class Base0;\n" + "\n".join(main) + "\nmulticlass M { def x; }\ndef d0;\n"
+        head = ('include "inc.td"\n' if inc else "") + "class Base0;\nmulticlass M { def _x : Base0; }\ndef d0 : Base0;\ndefm dm : M;\n" + "\n".join(main) + "\n"
         classes["Base0"] = 0
         opener = {"class": "class Z : ", "class2": "class Z<int q> : Base0, ", "def": "def d1 : ", "defm": "defm dm : ",
                   "multiclass": "multiclass MM : ", "defbody": "class Z { int f; }\ndef d2 : Base0, "}[kind]
@@ -156,7 +170,9 @@ def run(ck):
         text += "A" + (" { }" if kind == "multiclass" else ";")
         files = {"/main.td": text}
         if inc:
-            files["/inc.td"] = "\n".join(inc)
+            # (parameter types must resolve where they are written: a parameter whose type names an unknown class is a fault, and
+            # whether it still counts as a parameter is not for this check to decide)
+            files["/inc.td"] = "class Base0;\n" + "\n".join(inc)
         if kind in ("class", "class2", "defbody"):
             classes["Z"] = 1 if kind == "class2" else 0
         progs.append((files, pos + 1, classes))
